@@ -419,7 +419,7 @@ static void roundtrip_sa(const struct sockaddr *sa, int salen, const char *plain
 		if ((pr != 0 || p2 != 0 || out->sa_family != sa->sa_family || (sa->sa_family == AF_INET ? memcmp(&((struct sockaddr_in *)out)->sin_addr, &((const struct sockaddr_in *)sa)->sin_addr, 4) : memcmp(&((struct sockaddr_in6 *)out)->sin6_addr, &((const struct sockaddr_in6 *)sa)->sin6_addr, 16))) && ONCE(srep.noport)) { snprintf(key, sizeof key, "C40/parse-port/%s-portless-text", fam); mc_fail(key, "\"%s\" -> %d port %d", t2, pr, p2); }
 	}
 	/* a port outside 1..65535 must never come back as a successfully parsed address with another port */
-	static const char *BADP[] = { "0", "65536", "65537", "-1", "131072" };
+	static const char *BADP[] = { "0", "65536", "65537", "-1", "131072", "4294967297" };
 	for (unsigned b = 0; b < sizeof BADP / sizeof BADP[0]; b++) {
 		char t3[200]; snprintf(t3, sizeof t3, sa->sa_family == AF_INET ? "%s:%s" : "[%s]:%s", plain, BADP[b]);
 		memset(out, 0xa5, salen); outlen = salen;
